@@ -109,3 +109,56 @@ def report_l2(ctx, fails, limit=3):
         ctx.violation("%s fails on the real engine: %s" % (ctx.pid, f["why"]),
                       dict(kind="implementation-monitor/L2", input=f,
                            replay_hint="suites.engine.run_case(engine_specs.<template>, seed) reproduces the run"))
+
+
+def run_runnerdiff(ctx, n, theorems):
+    """L2 runner differential (suites/runnerdiff.py): complete processed-tick log, published stream and outcome of real
+    runs vs Model/Runner.v, compared exactly inside Coq.  A disagreement without a concrete monitor failure is
+    reported as `no-failing-input-found`, naming the runner-level theorems that rest on the model."""
+    import random
+    from suites import engine_specs as S, runnerdiff as RD
+    rng = random.Random(ctx.seed * 211 + 5)
+    tmpls = [S.rd_fan, S.rd_wait, S.rd_ir, S.retrychain, S.retrywait, S.tworetries]
+    exprs, infos, skipped = [], [], 0
+    for i in range(n):
+        seed = rng.randrange(1 << 30)
+        tmpl = tmpls[i % len(tmpls)]
+        try:
+            e, info = RD.run_case(tmpl, seed)
+        except RuntimeError as ex:
+            if "quiescent" not in str(ex):
+                raise
+            e, info = None, "livelock"
+        if e is None:
+            skipped += 1
+            continue
+        exprs.append(e)
+        infos.append((tmpl.__name__, seed, info))
+        ctx.count(1, ("runnerdiff", tmpl.__name__, info["ticks"], info["actions"], info["idle_checks"], info["delayed"]))
+        if len(infos) <= 2:
+            ctx.sample(dict(kind="l2-runnerdiff", template=tmpl.__name__, seed=seed, ticks=info["ticks"],
+                            actions=[a[:80] for a in info["acts"][:4]], published=info["published"]), limit=10)
+    res = ctx.run_cases("runnerdiff", RD.HEADER, exprs, shard=12)
+    bad = [i for i, z in enumerate(res) if z != 0]
+    tot = lambda k: sum(x[2][k] for x in infos)  # noqa: E731
+    ctx.programs += n
+    ctx.mark("runnerdiff")
+    ctx.suite("runnerdiff", cases=len(exprs), skipped=skipped, disagreements=len(bad), ticks=tot("ticks"), idle_checks=tot("idle_checks"),
+              time_advances=tot("delayed"), external_deliveries=tot("externals"), published=tot("published"))
+    ctx.disagreements += len(bad)
+    ctx.disagreements_checked += len(bad)
+    if bad:
+        name, seed, info = infos[bad[0]]
+        detail = dict(suite="runnerdiff", theorem="%s (Model/Runner.v no longer matches _ControlLoopRunner)" % theorems,
+                      cases_disagreeing=len(bad), first=dict(template=name, seed=seed, first_difference_at=res[bad[0]],
+                                                             actions=info["acts"][:30], real_encoding_head=info["expect"][:80]))
+        if any(v[1] for v in ctx.violations):
+            ctx.notes.append("%d runner model/implementation disagreements accompany the concrete failures" % len(bad))
+        else:
+            ctx.violation("model/implementation disagreement in suite runnerdiff (no property-level failing input found)",
+                          detail, found_input=False)
+    ctx.require_coverage("runnerdiff", "cases", len(exprs), 20)
+    ctx.require_coverage("runnerdiff", "idle_checks", tot("idle_checks"), 10)
+    ctx.require_coverage("runnerdiff", "time_advances", tot("delayed"), 3)
+    ctx.require_coverage("runnerdiff", "external_deliveries", tot("externals"), 5)
+    return len(bad)
